@@ -19,6 +19,7 @@ var table = map[string]func(*checks.Run){
 	"C17": checks.C17,
 	"C18": checks.C18,
 	"C03": checks.C03,
+	"C04": checks.C04,
 	"C05": checks.C05,
 	"C06": checks.C06,
 	"C09": checks.C09,
